@@ -34,10 +34,11 @@ class Fn:
 
     def __init__(self, cname, tu, name, flt=None, select=None, kinds=('CXXMethodDecl', 'FunctionDecl', 'CXXConstructorDecl'),
                  self_struct=None, types=(), calls=(), members=(), hooks=(), stmt_hooks=(), aggregates=(),
-                 ret=None, lambda_index=None, extra_params=(), post=None, uf_float=True, opaque=(), lambda_select=None):
+                 ret=None, lambda_index=None, extra_params=(), post=None, uf_float=True, opaque=(), lambda_select=None, dtors=()):
         self.lambda_select = lambda_select
         self.uf_float = uf_float
         self.opaque = opaque
+        self.dtors = list(dtors)
         self.cname = cname
         self.tu = tu
         self.name = name
@@ -70,8 +71,9 @@ class Fn:
                 raise ExtractionError(f'{self.cname}: lambda without an instantiated operator()')
             d = inst[0]
         P = cxx2c.Printer(self.cname, self.types, self.calls, self.members, self.hooks, self.self_struct,
-                          self.aggregates, self.stmt_hooks, self.uf_float, self.opaque)
+                          self.aggregates, self.stmt_hooks, self.uf_float, opaque=self.opaque, dtors=self.dtors)
         P.default_file = loc.get('file') or loc.get('expansionLoc', {}).get('file') or loc.get('spellingLoc', {}).get('file') or astload.resolve_tu(self.tu)
+        P.field_init = lambda cls, fld: astload.field_initializer(self.tu, cls, fld)
         text = P.function(d, self.ret, self.extra_params)
         if self.post:
             text = self.post(text)
